@@ -73,7 +73,10 @@ def run_extra(ctx):
     from props import C05_inv      # a_c05 (wave 4): per-case watchdog wrapper, see props/C05_inv.py
     cases = [C05_inv.w(c) for c in cases]
     for prof in ("release", "debug"):
-        impl, _ = ctx.correspond("entry_points_extra_" + prof, cases, nontrivial=lambda c, i: not i.startswith("ERR") and i != "NOKIND", profile=prof, model=False)
+        r = C05_inv.guarded(ctx, "entry_points_extra_" + prof, cases, prof, nontrivial=lambda c, i: not i.startswith("ERR") and i != "NOKIND", model=False)
+        if r is None:       # a_c05: hang storm seen by the pilot, failures already recorded
+            continue
+        impl = r[0]
         base = len(impl) - len(cases)
         for k, c in enumerate(cases):
             o = impl[base + k]
